@@ -38,8 +38,8 @@ def track_eq(ops_a, ops_b):
         return [[[F(e[0]), F(e[1]), None if e[2] is None else sorted(int(n) for n in e[2])] for e in b.bar] for b in t.bars]
     return [a == b, b == a, contents(a) == contents(b), ca == cb, cb == ca, len(a), len(b)]
 
-IMPL = {"track.run": machines.run_track, "comp.run": machines.run_comp, "comp.misc": comp_misc, "track.eq": track_eq}
-NO_MODEL = {"comp.misc", "track.eq"}
+IMPL = {"track.run": machines.run_track, "comp.run": machines.run_comp, "comp.two": machines.run_comps, "comp.misc": comp_misc, "track.eq": track_eq}
+NO_MODEL = {"comp.misc", "track.eq", "comp.two"}
 def has_model(c):
     return c["fn"] not in NO_MODEL
 
@@ -126,7 +126,27 @@ def cases(tier, rng):
             yield Case("track.eq", [a, b], "equality", model=False, kind=("eq",))
     for sc in scripts:
         yield Case("comp.run", [sc], "composition", kind=("comp",))
+    # a selected track whose last bar has no room for the quarter note refuses it; the OTHER selected tracks still get it
+    nearly = [["track_add", 0, C4, 4]] * 3 + [["track_add", 0, C4, 8]]            # 7/8 of a 4/4 bar
+    for sel in ([0, 1, 2], [1, 0, 2], [2, 1, 0], [0, 2], [0]):
+        sc = [["add_track", "none"], ["add_track", "none"], ["add_track", "none"]] + nearly + [["select", sel], ["add_note", C4],
+              ["add_note", CHORD]]
+        yield Case("comp.run", [sc], "composition/one-track-refuses", model=False, kind=("comp",))
+    sc = [["add_track", "none"], ["add_track", "none"], ["track_add", 1, C4, 2], ["track_add", 1, C4, 4], ["track_add", 1, C4, 8],
+          ["select", [1, 0]], ["add_note", C4], ["select", [0, 1]], ["add_note", E3]]
+    yield Case("comp.run", [sc], "composition/one-track-refuses", model=False, kind=("comp",))
     yield Case("comp.misc", [[]], "composition/misc", model=False, kind=("misc",))
+    # two (three) compositions in use at the same time: what is done to one must not reach the other
+    inter = [
+        [["add_track", 0, "none"], ["add_track", 1, "none"], ["add_track", 1, "none"], ["add_note", 0, C4], ["add_note", 1, E3], ["add_note", 0, CHORD]],
+        [["add_track", 0, "none"], ["add_track", 0, "none"], ["add_track", 1, "none"], ["add_note", 0, C4], ["add_note", 1, C4]],
+        [["add_track", 0, "none"], ["add_track", 0, "none"], ["add_track", 0, "none"], ["select", 0, [0, 2]], ["add_track", 1, "none"],
+         ["add_note", 0, C4], ["add_note", 1, CHORD], ["add_note", 0, E3]],
+        [["add_track", 0, "none"], ["add_track", 1, "none"], ["add_track", 2, "none"], ["add_track", 2, "none"], ["add_note", 0, C4],
+         ["add_note", 1, C4], ["add_note", 2, C4], ["add_note", 0, C4]],
+    ]
+    for sc in inter:
+        yield Case("comp.two", [3, sc], "composition/interleaved", model=False, kind=("two",))
 
 def exact_of(v):
     for fv, ex, _ in VOC:
@@ -295,19 +315,43 @@ def oracle(c, obs):
     if kind[0] == "comp":
         script = c["args"][0]
         # independent model: which tracks receive each note
-        tracks, sel = [], []
+        # (bars are 4/4; a track's `+` places a quarter note: refused when the last bar has less than a quarter left)
+        tracks, fill, sel = [], [], []
+        def put(s, v):
+            if fill[s] == 1:
+                fill[s] = F(0)
+            if fill[s] + F(1) / F(v) <= 1:
+                fill[s] += F(1) / F(v); tracks[s] += 1
         for op in script:
             if op[0] == "add_track":
-                tracks.append(0); sel = [len(tracks) - 1]
+                tracks.append(0); fill.append(F(0)); sel = [len(tracks) - 1]
             elif op[0] == "select":
                 sel = list(op[1])
             elif op[0] == "add_note":
                 for s in sel:
-                    if op[1] != [["obj", "E", 3]] or True:
-                        tracks[s] += 1
+                    put(s, 4)
+            elif op[0] == "track_add":
+                put(op[1], op[3])
         got = [sum(len(b[4]) for b in t) for t in obs]
         # Guitar refuses nothing here (E-3 is its lowest note, C-E-G in octave 4 fits)
         return None if got == tracks else "adding notes to a composition did not reach exactly the selected tracks"
+    if kind[0] == "two":
+        n, script = c["args"]
+        tracks = [[] for _ in range(n)]; sel = [[] for _ in range(n)]
+        for op in script:
+            ci = op[1]
+            if op[0] == "add_track":
+                tracks[ci].append(0); sel[ci] = [len(tracks[ci]) - 1]
+            elif op[0] == "select":
+                sel[ci] = list(op[2])
+            elif op[0] == "add_note":
+                for s_ in sel[ci]:
+                    tracks[ci][s_] += 1
+        if isinstance(obs, Err):
+            return "raised"
+        got = [[sum(len(b[4]) for b in t) for t in comp] for comp in obs]
+        return None if got == tracks else \
+            "compositions used side by side: notes reached %s entries per track, expected %s (exactly the selected tracks of THAT composition)" % (got, tracks)
     if kind[0] == "misc":
         return None if obs == [2, 0, 1, True, True, True, 1, True] else "indexing / length / equality do not follow contents"
     return None
